@@ -80,6 +80,7 @@ def generate(R, tier, focus):
         cfg['list_region'] = R.choice((False, True, True, 'other', 'permuted'))
         cfg['list_region_perm_seed'] = R.randint(0, 10 ** 6)
     cfg['low_mag_unfiltered'] = False
+    cfg['share_region_object'] = R.random() < 0.5
     if cfg['apply_filters']:
         kinds = [k for k in ('mag', 'time') if R.random() < 0.6]
         min_mw = mags['edges'][0]
@@ -127,6 +128,16 @@ def generate(R, tier, focus):
                 cats[cid].insert(R.randint(0, len(cats[cid])), ev)
     if cfg.get('list_region') == 'other' and (quad or not cfg['filter_spatial']):
         cfg['list_region'] = True
+    cfg['outside_unfiltered'] = False
+    if not quad and not cfg['filter_spatial'] and R.random() < 0.08:
+        # events outside the region and no spatial filter: legal as long as nothing is gridded (gridding raises)
+        cfg['outside_unfiltered'] = True
+        for cid in range(J):
+            if R.random() < 0.6:
+                p_ = gen.point_outside(R, region)
+                ev, _, _ = gen.gen_event(R, region, mags, eid='c%dfar' % cid, start_ms=start_ms, end_ms=end_ms)
+                ev[3], ev[2] = p_
+                cats[cid].insert(R.randint(0, len(cats[cid])), ev)
     if not cfg['apply_filters'] and R.random() < 0.12:
         # events below the first magnitude bin and no magnitude filter: legal as long as nothing is gridded
         cfg['low_mag_unfiltered'] = True
@@ -206,9 +217,10 @@ def _inside(ev, region):
     if region['kind'] != 'cart':
         return True
     dh = region['dh']
-    for o in region['origins']:
+    mask = region.get('mask')
+    for i, o in enumerate(region['origins']):
         if o[0] <= ev[3] < o[0] + dh and o[1] <= ev[2] < o[1] + dh:
-            return True
+            return not mask or mask[i] == 1
     return False
 
 
@@ -342,6 +354,12 @@ class FcWorld:
                 pass
 
     def region(self):
+        # one region object for all forecasts of the run (what a user does: build the region once, load many
+        # forecasts with it), or a new equal object per forecast
+        if self.cfg.get('share_region_object'):
+            if getattr(self, '_shared_region', None) is None:
+                self._shared_region = build.make_region(self.scn['region'], self.scn['mags'])
+            return self._shared_region
         return build.make_region(self.scn['region'], self.scn['mags'])
 
     def new_forecast(self, filtered=True, stats=None):
@@ -504,6 +522,13 @@ def _execute(scn, ctx, store, rng, clock, collect_results):
     if scn['region']['kind'] == 'quad':
         ctx.count('cfg:quadtree')
 
+    # ---- a fresh, unfiltered read before anything else happened in this process chunk -----------------------
+    raw_first = None
+    if cfg['source'] == 'file' and ctx.wants('C13'):
+        rr0 = call(lambda: [(c.catalog_id, build.cat_fingerprint(c)) for c in w.new_forecast(filtered=False)])
+        if rr0[0] == 'ok':
+            raw_first = rr0[1]
+
     # ---- canonical pass of a twin without history -----------------------------------------
     twin = w.new_forecast()
     r = call(full_pass, twin, J)
@@ -576,7 +601,7 @@ def _execute(scn, ctx, store, rng, clock, collect_results):
     kept_cats = model_filter(scn['cats'], cfg, scn['region'])
     model = None
     if ctx.wants('C10') or ctx.wants('C20'):
-        if cfg.get('low_mag_unfiltered'):
+        if cfg.get('low_mag_unfiltered') or cfg.get('outside_unfiltered'):
             # nothing can be gridded in this configuration; only the number test is defined (sizes, no bins)
             model = models.CatalogForecastModel([[[float(len(evs))]] for evs in kept_cats])
             model.sizes_only = True
@@ -755,6 +780,15 @@ def _execute(scn, ctx, store, rng, clock, collect_results):
         prev_state = st
     if stats['opened'] > 1:
         ctx.count('rare:loader_reopened')
+    if raw_first is not None and not ctx.violations:
+        # "re-read from file": a brand-new unfiltered forecast on the same file must yield what the very first read
+        # yielded, whatever other forecast objects (filtering in place) did to their catalogs in the meantime
+        rr1 = call(lambda: [(c.catalog_id, build.cat_fingerprint(c)) for c in w.new_forecast(filtered=False)])
+        if rr1[0] == 'ok':
+            ctx.count('fresh_read_rechecked')
+            if rr1[1] != raw_first:
+                ctx.violate('C13', 'stable_pass', 'fresh-read-of-the-file-differs-after-other-forecasts-used-it',
+                            {'first_counts': [len(x[1][1]) for x in raw_first][:8], 'later_counts': [len(x[1][1]) for x in rr1[1]][:8]})
     if scn.get('probe') and not ctx.violations:
         run_probe(scn, ctx, w, canon)
 
